@@ -158,28 +158,30 @@ def run(ctx):
                f'reader demands the keys {sorted(REQUIRED)} (got {sorted(val) if val else val})',
                detail='requiredkeys no longer contains all four essential keys')
     rj = ctx.repo.func('DataDir.read_jsondict')
-    keyifs = [n for n in own_nodes(rj.node) if isinstance(n, ast.If) and always_raises(n.body)
-              and 'requiredkeys' in names_in(n.test) | derived(rj.node, n.test)
-              and not isinstance(n.test, ast.Compare)]
-    keyifs = [n for n in keyifs if any(k in norm(n.test) for k in ('issubset', 'issuperset', '<=', '>=', '-'))]
     nval += 1
-    if not keyifs:
+    # path conditions folded with concrete key sets: a missing required key ends in ValueError, a complete key
+    # set reaches the normal exit — independent of how the subset test is spelled or laid out
+    from ._trunc import PatEnv
+    rk_param = 'requiredkeys' if 'requiredkeys' in rj.params else None
+    verdicts = {}
+    for label, have in (('missing', frozenset({'k1'})), ('complete', frozenset({'k1', 'k2', 'k3'}))):
+        env = PatEnv({rk_param: frozenset({'k1', 'k2'}), f'set({rk_param})': frozenset({'k1', 'k2'})},
+                     patterns=[(r'\.keys\(\)$', have), (r'^set\(\w+(\.keys\(\))?\)$', have),
+                               (r'^isinstance\(\w+, dict\)$', True)])
+        verdicts[label] = outcome_under(rj, folder(env, rj))
+    (n_miss, r_miss), (n_ok, r_ok) = verdicts['missing'], verdicts['complete']
+    if rk_param is None:
         ctx.bad('R-DOM', 'D1', rj, None, 'required-keys-test', 'read_jsondict raises for missing required keys',
-                detail='no raising subset test on requiredkeys found')
+                detail='read_jsondict has no requiredkeys parameter any more')
+    elif n_miss is False and 'ValueError' in r_miss and 'ValueError' not in r_ok:
+        ctx.ok('R-DOM', 'D1', rj, None, 'required-keys-test',
+               'read_jsondict: whenever requiredkeys is given, a missing key ends in ValueError before the dictionary is returned')
+    elif n_miss is True or (n_miss is None and 'ValueError' not in r_miss):
+        ctx.bad('R-DOM', 'D1', rj, None, 'required-keys-test', 'read_jsondict raises for missing required keys',
+                detail='with a required key missing the dictionary is returned (no ValueError is reachable)')
     else:
-        cfg = cfg_of(rj)
-        g = cfg.node_for(keyifs[0])
-        # paths that skip the test may only do so via `requiredkeys is None`
-        skip_edges = set()
-        for n in own_nodes(rj.node):
-            if isinstance(n, ast.If) and isinstance(n.test, ast.Compare) and \
-                    norm(n.test) in ('requiredkeys is not None', 'requiredkeys is None'):
-                skip_edges.add((cfg.node_for(n), norm(n.test) == 'requiredkeys is None'))
-        ok = not cfg.can_reach(cfg.entry, cfg.exit, avoid={g}, avoid_edges=skip_edges)
-        ctx.decide(ok and 'ValueError' in raised_names(keyifs[0].body), 'R-DOM', 'D1', rj, keyifs[0],
-                   'required-keys-test',
-                   'read_jsondict: whenever requiredkeys is given, the subset test is passed before returning',
-                   detail='a path returns the dictionary without testing the required keys')
+        ctx.assume('R-DOM', 'D1', rj, None, 'required-keys-test', 'read_jsondict raises for missing required keys',
+                   detail='the subset test is in a form the rule cannot fold')
     # no handler on the read path swallows
     nval += 1
     chain = [reader, rj, ctx.repo.func('DataDir.read_jsonfile')]
